@@ -2,7 +2,7 @@ from .core import BASE_TRUST
 
 META = {
     "category": "proof",
-    "text": "Lean 4 theorems over the effect lists regenerated from lib/file/handler.go: Handler.close, closeWithErrors (the deferred path after error / EXIT / signal, which never stops at a failing step) and commit of non-update handlers remove every control file and keep the data of existing tables for all contents; an uncommitted created table is unlinked on close; the read path contains no write / truncate / rename / exclusive open; from the C09 invariant a process that timed out or finished owns no lock or rlock; over the statement list regenerated from lib/cli/app.go commandAction (extract/cliproto) with Go's LIFO defer rule (deferred_runs, proved for every function body): every return point behind the creation of the processor runs the deferred clean-up, AutoRollback before ReleaseResourcesWithErrors, registered at once after NewProcessor; the signal handler is installed, never stopped or reset in the frame, and cancels the context. Tied to the running binary by process-level runs: 10 procedure shapes x {plain end, error, EXIT, competing lock holder (lock timeout), SIGINT/SIGTERM/SIGQUIT delivered at every named VerifPoint reached and at random delays}: afterwards the directory holds no .lock/.rlock/.temp, no uncommitted created table, and read-only programs leave every file byte-identical",
+    "text": "Lean 4 theorems over the effect lists regenerated from lib/file/handler.go: Handler.close, closeWithErrors (the deferred path after error / EXIT / signal, which never stops at a failing step) and commit of non-update handlers remove every control file and keep the data of existing tables for all contents; an uncommitted created table is unlinked on close; the read path contains no write / truncate / rename / exclusive open; from the C09 invariant a process that timed out or finished owns no lock or rlock; over the statement list regenerated from lib/cli/app.go commandAction (extract/cliproto) with Go's LIFO defer rule (deferred_runs, proved for every function body): every return point behind the creation of the processor runs the deferred clean-up, AutoRollback before ReleaseResourcesWithErrors, registered at once after NewProcessor; the BODY of every deferred function literal is regenerated as a tree with its control flow (conditions, returns, calls that never return) and gen_cleanup_reached_on_every_path says that on EVERY path through the deferred clean-up - for every kind of error - AutoRollback and then ReleaseResourcesWithErrors are reached, preceded by nothing but the report of the rollback's own error (exec_mem_runs / cleanup_whatever_the_conditions: for every way the conditions turn out); the signal handler is installed, never stopped or reset in the frame, and cancels the context. Tied to the running binary by process-level runs: 10 procedure shapes x {plain end, error, EXIT, competing lock holder (lock timeout), SIGINT/SIGTERM/SIGQUIT delivered at every named VerifPoint reached and at random delays}: afterwards the directory holds no .lock/.rlock/.temp, no uncommitted created table, and read-only programs leave every file byte-identical; 6 pre-load programs (csvqrc in HOME, in HOME/.csvq, in the working directory: update lock, created table, FOR UPDATE, a committed part followed by uncommitted changes) x 25 command lines csvq rejects as incorrect usage (argument count, --source with an argument, every option with a checked value, piped stdin for the interactive shell, every sub-command's argument errors): the repository afterwards is exactly what the committed part of the pre-load commands left",
     "design_ref": "DESIGN.md section 5, C11",
     "note": "trusted: Lean kernel; extract/fsproto, extract/cliproto; OS signal delivery, Go's signal.Notify and defer semantics (modelled as LIFO); that every statement between cancellation and the return of commandAction actually returns (no blocking call ignores the context) is covered by the process-level runs, not by a theorem (partial); signals inside a system call are sampled by timing only",
     "technique": "Lean 4 machine-checked proof over regenerated close/commit sequences + lock-protocol invariant; process-level enumeration of endings and signal points of the real binary",
@@ -21,7 +21,7 @@ def run(run):
             run.stream("c11", 100000, seed_offset=1, model="C10", env={"VERIF_CSVQ": str(csvq)}, timeout=3000)
     return run.finish(
         level="proof",
-        rule="10 procedure shapes (reads, FOR UPDATE, DML with auto-commit / COMMIT / ROLLBACK, CREATE TABLE followed by error or EXIT, missing table) x endings {plain, competing lock holder with --wait-timeout, signal at each (VerifPoint, occurrence) reached (quick: a seeded subset; thorough: all), signal after a random 1-12 ms}; non-trivial = distinct (procedure, ending, exit code) signature",
+        rule="10 procedure shapes (reads, FOR UPDATE, DML with auto-commit / COMMIT / ROLLBACK, CREATE TABLE followed by error or EXIT, missing table) x endings {plain, competing lock holder with --wait-timeout, signal at each (VerifPoint, occurrence) reached (quick: a seeded subset; thorough: all), signal after a random 1-12 ms}; 6 pre-load programs x 25 kinds of incorrect command line (main command and sub-commands); non-trivial = distinct (procedure, ending, exit code) signature",
         trusted_base=BASE_TRUST + ["extract/fsproto", "extract/cliproto", "OS signal delivery", "Go defer semantics"],
         checker_cmd="cd /verif/lean && lake build Csvq.Props.C11 && lake env lean <#print axioms for every theorem>",
     )
